@@ -45,6 +45,7 @@ fn main() {
         "bristol-corpus" => c11::cmd_corpus(rest),
         "bristol-mutate" => c11::cmd_mutate(rest),
         "literals-replay" => c09::cmd_replay(rest),
+        "session-replay" => c09::cmd_session_replay(rest),
         "arms-replay" => c08::cmd_replay(rest),
         "consts-replay" => c12::cmd_replay(rest),
         "determinism" => c06::cmd_determinism(rest),
